@@ -45,9 +45,10 @@ const (
 	hTSlice = 7 // []int
 	hTPtr0  = 8 // *hP0 (unnamed type)
 	hTPtr1  = 9 // *hP1 (unnamed type)
+	hTArr   = 10 // [1]int (unnamed, not a pointer: Name() and PkgPath() are empty)
 )
 
-var hTypeNames = []string{"P0", "P1", "P2", "I", "P3", "P4", "List", "[]int", "*P0", "*P1"}
+var hTypeNames = []string{"P0", "P1", "P2", "I", "P3", "P4", "List", "[]int", "*P0", "*P1", "[1]int"}
 
 func hType(t int) reflect.Type {
 	switch t {
@@ -69,6 +70,8 @@ func hType(t int) reflect.Type {
 		return reflect.TypeOf((*hP0)(nil))
 	case hTPtr1:
 		return reflect.TypeOf((*hP1)(nil))
+	case hTArr:
+		return reflect.TypeOf([1]int{})
 	}
 	return reflect.TypeOf((*hI)(nil)).Elem()
 }
@@ -92,6 +95,8 @@ func hMk(t int, id int) interface{} {
 		return &hP0{id}
 	case hTPtr1:
 		return &hP1{id}
+	case hTArr:
+		return [1]int{id}
 	}
 	return hP2{id}
 }
@@ -125,6 +130,8 @@ func hUnpack(v interface{}) (int, int) {
 		if x != nil {
 			return hTPtr1, x.ID
 		}
+	case [1]int:
+		return hTArr, x[0]
 	}
 	return -1, 0
 }
@@ -635,6 +642,25 @@ func (w *hWorld) hMkErr(k int) error {
 	return fmt.Errorf("harness error of function %d", k)
 }
 
+// hSetKeysDistinct: no two values share a name, and no two type-only values share type
+// and subtype (NewValueSet's precondition; TypedSubtype also finds named values).
+func hSetKeysDistinct(vals []hVal) bool {
+	for i, a := range vals {
+		for j, b := range vals {
+			if i >= j {
+				continue
+			}
+			if a.L.Name != "" && a.L.Name == b.L.Name {
+				return false
+			}
+			if a.L.T == b.L.T && a.L.Sub == b.L.Sub {
+				return false
+			}
+		}
+	}
+	return true
+}
+
 // hValArg is the option that supplies value i. With mode bit 32 the spelling is
 // symbolic: the same labelled value can be written as NamedSubtype, Named, Typed
 // (also after a nil in the same variadic Typed), or TypedSubtype.
@@ -690,7 +716,42 @@ func (w *hWorld) hBuildAll() ([]Arg, bool) {
 	}
 	w.Funcs[0] = t
 	var args []Arg
+	viaSet := false
+	if w.Mode&32 != 0 && len(w.Vals) > 0 && hSetKeysDistinct(w.Vals) && vnBool("viaValueSetArgs") {
+		// all values are handed over as ValueSet.Args() of a value set that holds them
+		// (built with NewValueSet, each value stored through the public accessors)
+		var vs []Value
+		for _, v := range w.Vals {
+			vs = append(vs, Value{Name: v.L.Name, Type: hType(v.L.T), Subtype: v.L.Sub})
+		}
+		if set, err := NewValueSet(vs); err == nil {
+			ok := true
+			for _, v := range w.Vals {
+				var p *Value
+				if v.L.Name != "" {
+					p = set.Named(v.L.Name)
+				} else {
+					p = set.TypedSubtype(hType(v.L.T), v.L.Sub)
+				}
+				if p == nil {
+					ok = false
+					break
+				}
+				p.Value = reflect.ValueOf(hMk(v.L.T, v.ID))
+			}
+			if ok {
+				args = append(args, set.Args()...)
+				viaSet = len(args) == len(w.Vals)
+				if !viaSet {
+					args = nil
+				}
+			}
+		}
+	}
 	for i, v := range w.Vals {
+		if viaSet {
+			break
+		}
 		args = append(args, w.hValArg(i, v))
 	}
 	for _, c := range w.Convs {
@@ -748,14 +809,15 @@ func (w *hWorld) hBuildAllAsDefaults() bool {
 //	9 F-ptr   names {"",a}, UNNAMED types {*P0, *P1, []int} (Name() and PkgPath() are empty for all of them)
 //	8 F-assign names {"",a}, types {P0, hList (defined, underlying []int), []int}: assignable but different types
 //	10 F-asub no names, types {hList, []int} (assignable but different), subtypes {"",s}
+//	11 F-unnamed names {"",a}, types {[]int, [1]int (both unnamed non-pointer types), P0}, no subtypes
 //	7 F-nsub  names {"",a,b}, types {P0,P1}, subtypes {"",s} on type P0 only... (= F-full with canonical type order)
-var hNamePool = [][]string{{""}, {"", "a", "b"}, {"", "a"}, {"", "a", "b"}, {"", "a"}, {""}, {""}, {"", "a", "b"}, {"", "a"}, {"", "a"}, {""}}
-var hTypePool = [][]int{{hTP0, hTP1, hTP2, hTI}, {hTP0, hTP1}, {hTP0}, {hTP0, hTP1}, {hTP0, hTP2, hTI}, {hTP0, hTP1, hTP2, hTP3, hTP4}, {hTP0, hTP1, hTP2}, {hTP0, hTP1}, {hTP0, hTList, hTSlice}, {hTPtr0, hTPtr1, hTSlice}, {hTList, hTSlice}}
-var hSubPool = [][]string{{""}, {""}, {"", "s", "S"}, {"", "s"}, {""}, {""}, {"", "s", "S"}, {"", "s"}, {""}, {""}, {"", "s"}}
+var hNamePool = [][]string{{""}, {"", "a", "b"}, {"", "a"}, {"", "a", "b"}, {"", "a"}, {""}, {""}, {"", "a", "b"}, {"", "a"}, {"", "a"}, {""}, {"", "a"}}
+var hTypePool = [][]int{{hTP0, hTP1, hTP2, hTI}, {hTP0, hTP1}, {hTP0}, {hTP0, hTP1}, {hTP0, hTP2, hTI}, {hTP0, hTP1, hTP2, hTP3, hTP4}, {hTP0, hTP1, hTP2}, {hTP0, hTP1}, {hTP0, hTList, hTSlice}, {hTPtr0, hTPtr1, hTSlice}, {hTList, hTSlice}, {hTSlice, hTArr, hTP0}}
+var hSubPool = [][]string{{""}, {""}, {"", "s", "S"}, {"", "s"}, {""}, {""}, {"", "s", "S"}, {"", "s"}, {""}, {""}, {"", "s"}, {""}}
 
 // families whose types are interchangeable plain structs: labels are drawn in
 // canonical (first-use) order so that the solver prunes relabelled duplicates
-var hCanonTypes = []bool{false, false, false, false, false, true, true, true, false, false, false}
+var hCanonTypes = []bool{false, false, false, false, false, true, true, true, false, false, false, false}
 
 // hMaxType is the highest pool position used so far in the world being drawn.
 var hMaxType = -1
